@@ -1,6 +1,7 @@
 import GoCrypt.Proofs.Parse
 import GoCrypt.Spec.RefParse
 import GoCrypt.Proofs.ParseRef
+import GoCrypt.Gen.Facts
 
 /-!
 # C11 — the hash parser terminates, loses no input and leaks no goroutine
@@ -156,6 +157,14 @@ example : Unterminated [36, 97, 98, 99] := ⟨[97, 98, 99], rfl, by decide⟩
 -- "$1$_abc" : one prefix only
 example : parse [36, 49, 36, 95, 97, 98, 99] = .ok ⟨some [36, 49, 36], [.value ⟨[95, 97, 98, 99], 3, 7⟩]⟩ := by decide
 
+/-- Regenerated from the current source: the parser package starts exactly one goroutine, the lexer's
+`run`, once per `lex` call and outside any loop (the producer of the rendezvous the model assumes). -/
+theorem lexer_goroutine_facts :
+    ((GoCrypt.Gen.Facts.goStmts.filter fun f => f.site == "hash/parse").map fun f => (f.fn, f.starts, f.loops, f.goCount)) =
+      [("lex", "l.run", [], 1)] := by
+  decide
+
+#print axioms lexer_goroutine_facts
 #print axioms parse_error_iff
 #print axioms parse_total
 #print axioms lexer_lossless
